@@ -73,45 +73,78 @@ class Ctl(object):
 def run_scalar(ctl, case):
     P = ctl.E['P']; raw = ctl.raw
     raw.execute('DELETE FROM P'); raw.execute('INSERT INTO P (id, a, b, v, z) VALUES (1, ?, ?, ?, ?)', case['db0']); raw.commit()
-    def row():
+    lock = ctl.db.provider.transaction_lock
+    def committed():
         return list(raw.execute('SELECT a, b, v, z FROM P WHERE id = 1').fetchone())
+    ctl_lazy_loaded[0] = False
     sess = S.Session(ctl.reader, orm); sess.begin()
     model, real, failed, other = [], [], False, []
     loaded = False
-    lazy_loaded = False
-    wrote = False
+    pending = {}          # own writes not yet flushed
+    uncommitted = {}      # own writes flushed (UPDATE executed) but not yet committed: visible to the reader's connection only
+    v_unloaded = False    # a written volatile attribute is forgotten by the flush and loaded again (whole row) on the next access
+    skipped = 0
+    def seen_row():
+        cur = committed()
+        for a, v in uncommitted.items(): cur[a] = v
+        return cur
+    def flush_prelude():
+        """a statement of the reader while it has unflushed writes: the flush comes first"""
+        nonlocal v_unloaded
+        if pending:
+            cur = seen_row()
+            model.append(['Flush', [[a, cur[a]] for a in range(4)]])
+            if 2 in pending: v_unloaded = True
+            uncommitted.update(pending); pending.clear()
     for op in case['ops']:
         if op[0] == 'X':
+            if lock.locked(): skipped += 1; continue          # the writer would block on the reader's open transaction
             name, v = SC_ATTRS[op[1]], op[2]
             ctl.write(lambda: setattr(P[1], name, v))
             continue
         if failed: continue            # the reading session is over
-        cur = row()
         if not loaded:                 # the first P[1] of the session fetches the non-lazy columns
+            cur = seen_row()
             model += [['Load', a, cur[a]] for a in NONLAZY]; loaded = True
         if op[0] == 'R':
-            name = SC_ATTRS[op[1]]
-            model.append(['Read', op[1], cur[op[1]]])
-            r = sess.do(lambda: getattr(P[1], name))
-            if r[0] == 'ok': real.append(['obs', op[1], r[1]])
+            a = op[1]
+            if a == 3 and not ctl_lazy_loaded[0]: flush_prelude()
+            if a == 2 and v_unloaded:          # obj._load_(): the whole row again
+                cur = seen_row()
+                model += [['Load', x, cur[x]] for x in NONLAZY]; v_unloaded = False
+            cur = seen_row()
+            model.append(['Read', a, cur[a]])
+            if a == 3: ctl_lazy_loaded[0] = True
+            r = sess.do(lambda: getattr(P[1], SC_ATTRS[a]))
+            if r[0] == 'ok': real.append(['obs', a, r[1]])
         elif op[0] == 'W':
             name, v = SC_ATTRS[op[1]], op[2]
-            model.append(['Write', op[1], v]); wrote = True
+            model.append(['Write', op[1], v]); pending[op[1]] = v
             r = sess.do(lambda: setattr(P[1], name, v))
             if r[0] == 'ok': real.append(['write', op[1], v])
         elif op[0] == 'F':
-            assert not wrote, 'a query after a write would flush (not part of this harness)'
+            flush_prelude()
+            cur = seen_row()
             model += [['Load', a, cur[a]] for a in NONLAZY]
+            if v_unloaded: v_unloaded = False
             k = ctl.fresh()
             r = sess.do(lambda: [p.id for p in P.select(lambda p: p.id > k)[:]])
+        elif op[0] == 'K':             # commit() in the middle of the db_session: the session and its identity map stay alive
+            flush_prelude()
+            r = sess.do(lambda: orm.commit())
+            if r[0] == 'ok': uncommitted.clear()
         else:
             raise ValueError(op)
         if r[0] == 'exc':
-            if type(r[1]).__name__ == 'UnrepeatableReadError': failed = True
-            else:
-                failed = True; other.append('%s: %s' % (type(r[1]).__name__, str(r[1])[:300]))
-    sess.abort()
-    return {'failed': failed, 'events': real, 'model': model, 'other': other, 'lock_left_held': ctl.db.provider.transaction_lock.locked()}
+            failed = True
+            if type(r[1]).__name__ not in ('UnrepeatableReadError', 'OptimisticCheckError'):
+                other.append('%s: %s' % (type(r[1]).__name__, str(r[1])[:300]))
+    if sess.alive: sess.abort()
+    return {'failed': failed, 'events': real, 'model': model, 'other': other, 'skipped_writer_actions': skipped,
+            'lock_left_held': lock.locked()}
+
+
+ctl_lazy_loaded = [False]
 
 
 def run_coll(ctl, case):
